@@ -508,7 +508,29 @@ func (k *KDC) handleAS(req *rk.KDCReq, rec *ReqRecord, l *taskLog, pt []Perturb)
 		}
 	}
 	if k.Policy.RequirePreauth && !cp.NoPreauth && !preauthed {
-		return k.errReply(rk.ErrPreauthRequired, req, rk.EncPADataSeq(k.hintsFor(cp, req)), ""), rk.ErrPreauthRequired
+		edata := rk.EncPADataSeq(k.hintsFor(cp, req))
+		for _, p := range pt {
+			switch p.Kind {
+			case "edata-empty-info2":
+				edata = rk.EncPADataSeq([]rk.PAData{{Type: rk.PAETypeInfo2, Value: rk.EncETypeInfo2(nil)}})
+			case "edata-empty-info":
+				edata = rk.EncPADataSeq([]rk.PAData{{Type: rk.PAETypeInfo, Value: rk.EncETypeInfo(nil)}})
+			case "edata-empty-seq":
+				edata = rk.EncPADataSeq(nil)
+			case "edata-garbage":
+				edata = []byte{0x30, 0x82, 0xff, 0xff, 1, 2, 3}
+			case "edata-absent":
+				edata = nil
+			case "edata-unknown-etype":
+				s := "salt"
+				edata = rk.EncPADataSeq([]rk.PAData{{Type: rk.PAETypeInfo2, Value: rk.EncETypeInfo2([]rk.ETypeInfo2Entry{{Etype: 99, Salt: &s}})}})
+			case "edata-prefix":
+				if int(p.Arg) < len(edata) {
+					edata = edata[:p.Arg]
+				}
+			}
+		}
+		return k.errReply(rk.ErrPreauthRequired, req, edata, ""), rk.ErrPreauthRequired
 	}
 	tkey, ok := k.pickTicketKey(sp)
 	if !ok {
@@ -674,7 +696,36 @@ func (k *KDC) issue(a issueArgs) []byte {
 		}
 	}
 	conf := a.r.Bytes(rcrypto.ConfounderSize(int(replyKey.Etype)))
-	enc, err := rk.Seal(replyKey, usage, ep.EncBytes(encTag), conf, int64(a.replyKvno), k.Policy.KvnoInReply && a.kind == "as")
+	plain := ep.EncBytes(encTag)
+	for _, pt := range a.pt {
+		switch pt.Kind {
+		case "tkt-sname-empty":
+			rep.Ticket.SName = rk.PrincipalName{Type: 2}
+		case "rep-cname-empty":
+			rep.CName = rk.PrincipalName{Type: 1}
+		case "sealed-sname-empty":
+			ep.SName = rk.PrincipalName{Type: 2}
+			plain = ep.EncBytes(encTag)
+		case "enc-plain-garbage":
+			plain = a.r.Bytes(int(pt.Arg))
+		case "enc-plain-prefix":
+			if int(pt.Arg) < len(plain) {
+				plain = plain[:pt.Arg]
+			}
+		case "enc-plain-subst":
+			if pos := int(pt.Arg >> 8); pos < len(plain) {
+				plain = append([]byte{}, plain...)
+				plain[pos] = byte(pt.Arg)
+			}
+		case "padata-empty-info2":
+			rep.PAData = []rk.PAData{{Type: rk.PAETypeInfo2, Value: rk.EncETypeInfo2(nil)}}
+		case "padata-empty-info":
+			rep.PAData = []rk.PAData{{Type: rk.PAETypeInfo, Value: rk.EncETypeInfo(nil)}}
+		case "padata-garbage":
+			rep.PAData = []rk.PAData{{Type: rk.PAETypeInfo2, Value: a.r.Bytes(9)}, {Type: rk.PAPWSalt, Value: nil}}
+		}
+	}
+	enc, err := rk.Seal(replyKey, usage, plain, conf, int64(a.replyKvno), k.Policy.KvnoInReply && a.kind == "as")
 	if err != nil {
 		return k.errReply(rk.ErrGeneric, a.req, nil, err.Error())
 	}
